@@ -35,14 +35,15 @@ import (
 )
 
 type c18case struct {
-	Kind    string `json:"kind"`              // object | wire | table | registry
-	Type    string `json:"type,omitempty"`    // registry name / proto message name
-	Profile string `json:"profile,omitempty"` // zero empty max distinct random
-	Seed    int64  `json:"seed,omitempty"`
-	Leaf    string `json:"leaf,omitempty"` // path of the mutated leaf ("" = none)
-	Mut     string `json:"mutation,omitempty"`
-	Object  string `json:"object,omitempty"` // printed object (information only; regenerated from type/profile/seed)
-	Row     string `json:"row,omitempty"`
+	Kind    string     `json:"kind"`              // object | wire | table | registry
+	Type    string     `json:"type,omitempty"`    // registry name / proto message name
+	Profile string     `json:"profile,omitempty"` // zero empty max distinct random
+	Seed    int64      `json:"seed,omitempty"`
+	Leaf    string     `json:"leaf,omitempty"` // path of the mutated leaf ("" = none)
+	Mut     string     `json:"mutation,omitempty"`
+	Object  string     `json:"object,omitempty"` // printed object (information only; regenerated from type/profile/seed)
+	Row     string     `json:"row,omitempty"`
+	Steps   []memoStep `json:"steps,omitempty"` // kind "memo": API sequence on one live object
 }
 
 func typeShort(name string) string { return name[strings.Index(name, ":")+1:] }
@@ -755,6 +756,12 @@ func init() {
 					return fmt.Errorf("unknown type %q", cs.Type)
 				}
 				rn.checkObject(ti, profByName(cs.Profile), cs.Seed, 1<<30, cs.Leaf)
+			case "memo":
+				ti := findType(cs.Type)
+				if ti == nil {
+					return fmt.Errorf("unknown type %q", cs.Type)
+				}
+				rn.memoCase(ti, profByName(cs.Profile), cs.Seed, cs.Steps)
 			case "wire":
 				rn.wireCase(cs.Type, cs.Seed)
 			case "table", "registry", "golden":
@@ -771,6 +778,7 @@ func init() {
 		rn.convLines(c.Scale(60, 3000))
 		rn.utf8Probe()
 		rn.goldenVectors()
+		rn.memoFamily(c.Scale(60, 1500))
 		perType := c.Scale(25, 250) // random-profile objects per type (besides the 4 fixed profiles)
 		maxMut := c.Scale(40, 120)
 		for i := range registry {
